@@ -212,6 +212,7 @@ unsafe impl GlobalAlloc for Tracking {
     unsafe fn dealloc(&self, ptr: *mut u8, layout: Layout) {
         if ENABLED.load(Ordering::Relaxed) && enter() {
             FREES.fetch_add(1, Ordering::Relaxed);
+            let mut zero = false;
             let really_free = with_state(|s| {
                 let addr = ptr.addr();
                 match s.blocks.remove(&addr) {
@@ -231,6 +232,7 @@ unsafe impl GlobalAlloc for Tracking {
                             // Dead for the tracker, but the memory stays
                             // mapped until the next case begins.
                             s.delayed.push((addr, layout.size(), layout.align()));
+                            zero = true;
                             ok = false;
                         }
                         ok
@@ -249,6 +251,14 @@ unsafe impl GlobalAlloc for Tracking {
                 }
             });
             leave();
+            if zero {
+                // A delayed block reads as zeroes from now on: an unlocked
+                // mutex, null pointers, no waker, the first variant of an
+                // enum. A use after free then panics or faults at once and
+                // reproducibly instead of waiting on a mutex that happened
+                // to be locked when the block died.
+                unsafe { ptr.write_bytes(0, layout.size()) };
+            }
             if !really_free {
                 return; // Quarantined.
             }
